@@ -64,8 +64,12 @@ MODELLED = ('sr.utils.find_content_items / _create_references / collect_evidence
             'and ReferencedSegmentationFrame.from_segmentation (on an abstraction of the segmentation: per-frame segment '
             'number + derivation/source sequences + header ReferencedSeriesSequence; the abstraction is EXTRACTED by '
             'abstract_seg from synthetic datasets and from real highdicom Segmentations and both are compared with the '
-            'model).  Not modelled: unnamed IMAGE items '
-            '(find_content_items needs ConceptNameCodeSequence), patient/study attribute copying.  _SR.from_dataset '
+            'model).  Session 7: ko.KeyObjectSelection observer contexts (type guards, item order) and '
+            'get_observer_contexts (1-based match positions + Python slices, the two from_sequence parsers at the level of '
+            'attribute names), the arguments KeyObjectSelectionDocument.__init__ only records, the study / patient id / '
+            'study id / accession number a document inherits from evidence[0], find_content_items by NAME over coded '
+            'entries of every form (value of any form + scheme designator + scheme version).  Not modelled: unnamed items '
+            '(find_content_items needs ConceptNameCodeSequence), the other patient / study module attributes.  _SR.from_dataset '
             'is modelled with its root rebuild (value type, name, children, continuity, template) and the dispatch '
             'on template 1500 (MeasurementReport vs ContentSequence as the type of .content); documents whose content is a '
             'real TID 1500 MeasurementReport (template classes) are compared with the model on the tree highdicom built '
@@ -74,8 +78,8 @@ MODELLED = ('sr.utils.find_content_items / _create_references / collect_evidence
             '(14 concept name, 15 CODE value, 16 NUM unit, 17 NUM qualifier), carried like every other attribute; the '
             'root rebuild of from_dataset keeps key 14 (the whole ConceptNameCodeSequence is copied); '
             'ko_content takes what the title entry carries.')
-STRATA = ['find', 'collect', 'collect_err', 'doc', 'doc_err', 'doc_verify', 'doc_entries', 'roundtrip', 'from_dataset', 'ko', 'ko_err',
-          'ko_srread', 'ko_parse', 'segref', 'segframe', 'seg_real', 'tid1500', 'report_doc']
+STRATA = ['find', 'find_name', 'collect', 'collect_err', 'doc', 'doc_err', 'doc_verify', 'doc_entries', 'roundtrip', 'from_dataset', 'ko', 'ko_err',
+          'ko_srread', 'ko_parse', 'ko_ctx', 'doc_study', 'ko_study', 'segref', 'segframe', 'seg_real', 'tid1500', 'report_doc']
 NOT_EXECUTED = []
 RULE = ('trees: depth <= 4, fan-out <= 3, 15 value types, children below any value type, references drawn from a '
         'pool of <= 8 instances with repeats; optional attributes of items (document kinds): root and nested container '
@@ -110,7 +114,15 @@ RULE = ('trees: depth <= 4, fan-out <= 3, 15 value types, children below any val
         'content sequence deleted, value type) and parsed by KeyObjectSelectionDocument.from_dataset from the document or '
         'from dcmread(bytes); get_references x value type (incl. unsupported) x SOP class; report_doc: TID 1500 reports '
         '(plain / planar / 3-D region groups) x all constructor arguments x evidence all / duplicates / referenced only / '
-        'one referenced instance missing. non-trivial = at least one '
+        'one referenced instance missing. ko_ctx: key object selections with person / device / both / no observer context '
+        '(required attribute + random subset of the optional ones incl. the device role; 1 in 8 a context of the wrong type) x '
+        'description x institution / department / requested procedures x in memory / from_dataset(document) / '
+        'from_dataset(dcmread(bytes)), get_observer_contexts for filter None / Person / Device / another code. '
+        'doc_study / ko_study: evidence records carry patient / study id / accession number of their study; half of the '
+        'cases supply an unreferenced record of another study first; in memory and after the file round trip. find_name: '
+        'raw trees whose item names are coded entries in plain / long / URN form with / without scheme version and further '
+        'attributes; the name asked for is an item name exactly (64 %) or differing in form / version / scheme designator '
+        '/ code. non-trivial = at least one '
         'reference below depth 1 or >= 2 evidence groups or a refusal; distinct by case hash')
 
 VTS = ['CONTAINER', 'TEXT', 'CODE', 'NUM', 'IMAGE', 'COMPOSITE', 'SCOORD', 'SCOORD3D', 'UIDREF',
@@ -635,6 +647,71 @@ def gen_find(rng):
     return {'kind': 'find', 'tree': tree, 'q': q, 'recursive': rng.random() < 0.6, 'has_cs': has_cs}
 
 
+def gen_find_name(rng):
+    """find_content_items by name over a tree whose concept names are coded entries of every form (long / URN value,
+    scheme version, further attributes); the name asked for is the name of some item, exactly or differing in ONE
+    respect (form of the value, scheme version, scheme designator, code)"""
+    pool = [(rng.randint(1, 9), rng.randrange(4)) for _ in range(4)]
+    tree = gen_tree(rng, pool, p3d=0.05, raw=True, max_depth=3)
+    items = [x for x, _ in walk(tree)]
+    for x in items:
+        del x[5:]
+        x[1] = rng.randint(1, 3)
+        f = []
+        r = rng.random()
+        if r < 0.25:
+            f.append(2)
+        elif r < 0.5:
+            f.append(3)
+        if rng.random() < 0.4:
+            f.append(10 + rng.randint(1, 2))
+        if rng.random() < 0.2:
+            f += [4, 5, 10000 + rng.choice(CIDS)]
+        if f:
+            x.append([[K_NAME, sorted(f)]])
+    qn = None
+    if rng.random() < 0.92:
+        if items and rng.random() < 0.85:
+            pick = rng.choice(items)
+            f, base = opt_get(pick, K_NAME) or [], pick[1]
+        else:
+            f, base = [], rng.randint(1, 3)
+        qn = {'code': base, 'form': 2 if 2 in f else (3 if 3 in f else 0),
+              'version': ([x - 10 for x in f if 11 <= x <= 19] or [0])[0], 'scheme': True}
+        r = rng.random()
+        if r < 0.12:
+            qn['form'] = rng.choice([x for x in (0, 2, 3) if x != qn['form']])
+        elif r < 0.24:
+            qn['version'] = rng.choice([x for x in (0, 1, 2) if x != qn['version']])
+        elif r < 0.3:
+            qn['scheme'] = False
+        elif r < 0.36:
+            qn['code'] = rng.randint(1, 4)
+    like = rng.choice(items) if items and rng.random() < 0.8 else [rng.randrange(len(VTS)), 0, rng.randint(1, 4)]
+    if qn is not None and items and rng.random() < 0.8:
+        like = next((x for x in items if x[1] == qn['code']), like)
+    q = {'name': None, 'vt': like[0] if rng.random() < 0.25 else None,
+         'rel': (like[2] or 1) if rng.random() < 0.15 else None}
+    has_cs = rng.random() > 0.05
+    if not has_cs:
+        tree[4] = []
+    return {'kind': 'find_name', 'tree': tree, 'q': q, 'qname': qn, 'recursive': rng.random() < 0.8, 'has_cs': has_cs}
+
+
+def build_raw_named(t, root=False, has_cs=True):
+    """build_raw + the concept name of every item as the coded entry its option 14 describes"""
+    ds = build_raw(t, root=root, has_cs=has_cs)
+
+    def rename(node, d):
+        f = opt_get(node, K_NAME)
+        if f:
+            d.ConceptNameCodeSequence = [make_entry(str(node[1]), SCHEME, f'm{node[1]}', f)]
+        for kn, kd in zip(node[4], d.get('ContentSequence', [])):
+            rename(kn, kd)
+    rename(t, ds)
+    return ds
+
+
 def gen_collect(rng):
     pool = gen_pool(rng)
     refpool = [(r[0], r[1]) for r in pool]
@@ -859,6 +936,54 @@ def gen_ko_parse(rng):
     return c
 
 
+# ---- key object documents with observer contexts and recorded arguments (session 7) ------------
+# identifying attributes of an observer context: model tag -> (value type, constructor argument)
+PERSON_ATTRS = [(121008, 12, 'name'), (128774, 1, 'login_name'), (121009, 1, 'organization_name'),
+                (121010, 2, 'role_in_organization'), (121011, 2, 'role_in_procedure')]
+DEVICE_ATTRS = [(121012, 8, 'uid'), (121013, 1, 'name'), (121014, 1, 'manufacturer_name'), (121015, 1, 'model_name'),
+                (121016, 1, 'serial_number'), (121017, 1, 'physical_location'), (113876, 2, 'role_in_procedure')]
+CTX_ATTRS = [PERSON_ATTRS, DEVICE_ATTRS]
+K_VALUE = 30          # model key: value of the 'Observer Type' item, [0] Person / [1] Device
+T_DEVICE_ROLE = 113876
+# (finding D119, fixed in /repo 4fd7c6c: DeviceObserverIdentifyingAttributes.from_sequence did not list
+# 'role_in_procedure', so get_observer_contexts returned a device context WITHOUT the role it was given; the oracle
+# demands that every identifying attribute given comes back)
+
+
+def gen_octx(rng, ty):
+    """[observer type, [names of the identifying attributes]]: the required one and a subset of the optional ones"""
+    a = CTX_ATTRS[ty]
+    return [ty, [a[0][0]] + [t for t, _, _ in a[1:] if rng.random() < 0.45]]
+
+
+def gen_ko_ctx(rng, shape=None):
+    """a key object document with observer contexts (person / device / both / none; 1 in 8 of the wrong type),
+    institution / department name and requested procedures; in memory or written and parsed"""
+    c = gen_ko(rng)
+    c['kind'] = 'ko_ctx'
+    if shape is None:
+        shape = rng.randrange(4)
+    c['person'] = gen_octx(rng, 0) if shape & 1 else None
+    c['device'] = gen_octx(rng, 1) if shape & 2 else None
+    if shape and rng.random() < 0.12:
+        which = rng.choice([k for k in ('person', 'device') if c[k] is not None])
+        c[which] = gen_octx(rng, 1 if which == 'person' else 0)       # a context of the other type
+    c['inst'] = rng.randint(1, 9) if rng.random() < 0.5 else None
+    c['dept'] = rng.randint(1, 9) if rng.random() < 0.5 else None
+    c['requests'] = None if rng.random() < 0.5 else [rng.randint(1, 9) for _ in range(rng.randint(0, 2))]
+    c['parse'] = rng.choice([None, 'document', 'dcmread'])
+    c['filters'] = [None, 0, 1, 2]
+    return c
+
+
+def ctx_tree(o):
+    """the items an observer context contributes to the document (canonical tree nodes)"""
+    if o is None:
+        return []
+    vts = {t: vt for a in CTX_ATTRS for t, vt, _ in a}
+    return [[2, 121005, 5, None, [], [[K_VALUE, [o[0]]]]]] + [[vts[t], t, 5, None, [], []] for t in o[1]]
+
+
 def report_refs(rp):
     """instance numbers a report case references (from the case description, not from highdicom)"""
     return ({rp['pool'][g['source']][0] for g in rp['groups'] if g['type'] != 'planar3d'} |
@@ -937,6 +1062,27 @@ def gen_cases(rng, tier):
         cases.append(gen_tid1500(rng))
     for _ in range(30 * n):
         cases.append(gen_report_doc(rng))
+    # session 7 kinds LAST: the random stream of every earlier kind is exactly what it was before they existed
+    for _ in range(90 * n):
+        cases.append(gen_find_name(rng))
+    for i in range(48 * n):
+        cases.append(gen_ko_ctx(rng, shape=i % 4))
+    for i in range(40 * n):
+        c = gen_doc(rng, 'doc_study', force_ok=i % 5 != 0, max_depth=3)
+        if i % 2 and len(c['evidence']) > 1:
+            # an unreferenced record of another study first: the document is still filed under ITS study
+            ref = referenced(c['tree'])
+            un = [r for r in c['evidence'] if r[0] not in ref] or [[90, 0, 9, 91]]
+            c['evidence'] = [list(un[0])] + [r for r in c['evidence']]
+        c['parse'] = i % 3 == 0
+        cases.append(c)
+    for i in range(24 * n):
+        c = gen_ko(rng, err=i % 6 == 5)
+        c['orig_kind'], c['kind'] = c['kind'], 'ko_study'
+        if i % 2 and c['evidence']:
+            c['evidence'] = [[91, 0, 9, 91]] + c['evidence']       # an unreferenced record of another study first
+        c['parse'] = i % 3 == 0
+        cases.append(c)
     return cases
 
 
@@ -1306,14 +1452,23 @@ def root_part(doc):
 _EVD_CACHE = {}
 
 
-def evidence_ds(rec):
-    """Synthetic evidence instance (CT frame from harness/synth.py) with the given identity."""
+def evidence_ds(rec, patient=False):
+    """Synthetic evidence instance (CT frame from harness/synth.py) with the given identity; patient=True: patient,
+    study id and accession number numbered like the study (kinds doc_study / ko_study)."""
     import synth
     u, c, st, se = rec
     ds = synth.ct_frame((0.0, 0.0, float(u)), 2, 2, series_uid=series_of(se), study_uid=study_of(st))
     ds.SOPInstanceUID = uid_of(u)
     ds.SOPClassUID = CLASSES[c]
+    if patient:
+        ds.PatientID, ds.PatientName, ds.StudyID, ds.AccessionNumber = f'P{st}', f'Pat^{st}', f'S{st}', f'A{st}'
     return ds
+
+
+def observe_identity(doc):
+    """study, patient id, study id, accession number of the document itself (numbers)"""
+    return [num_of(doc.StudyInstanceUID), _suffix(doc.get('PatientID'), 'P'), _suffix(doc.get('StudyID'), 'S'),
+            _suffix(doc.get('AccessionNumber'), 'A')]
 
 
 def plain_evidence(rec):
@@ -1399,7 +1554,7 @@ def make_doc(c):
     elif c['as_seq']:
         from pydicom.sequence import Sequence
         content = Sequence([copy.deepcopy(root) if i else root for i in range(c.get('seq_n', 1))])
-    ev = [evidence_ds(r) for r in c['evidence']]
+    ev = [evidence_ds(r, patient=c['kind'] == 'doc_study') for r in c['evidence']]
     kw = {}
     if c['observer'] is not None:
         kw['verifying_observer_name'] = f"Doe^J{c['observer']}" if c['observer'] else ''
@@ -1771,6 +1926,134 @@ def doc_kind(c):
     return k
 
 
+def build_octx(o):
+    """the real ObserverContext of a generated context [type, names of the identifying attributes]"""
+    from highdicom import sr
+    from pydicom.sr.codedict import codes
+    from pydicom.sr.coding import Code
+    vals = {'name': ['Doe^J', 'dev'][o[0]], 'login_name': 'jd', 'organization_name': 'Org', 'uid': PFX + '9.9',
+            'manufacturer_name': 'verif', 'model_name': 'M1', 'serial_number': 'S1', 'physical_location': 'here',
+            'role_in_organization': Code('R1', SCHEME, 'role one'), 'role_in_procedure': Code('R2', SCHEME, 'role two')}
+    kw = {arg: vals[arg] for t, _, arg in CTX_ATTRS[o[0]] if t in o[1]}
+    cls = [sr.PersonObserverIdentifyingAttributes, sr.DeviceObserverIdentifyingAttributes][o[0]]
+    return sr.ObserverContext([codes.DCM.Person, codes.DCM.Device][o[0]], cls(**kw))
+
+
+OBSERVER_CODES = {'121006': 0, '121007': 1}
+
+
+def tree_ctx(ds):
+    """tree_of + the value of every 'Observer Type' item among the children of the root (model key 30)"""
+    t = tree_of(ds)
+    for node, k in zip(t[4], ds.get('ContentSequence', [])):
+        if node[1] == 121005 and 'ConceptCodeSequence' in k:
+            v = str(k.ConceptCodeSequence[0].get('CodeValue'))
+            node[5] = list(node[5]) + [[K_VALUE, [OBSERVER_CODES.get(v, 9)]]]
+    return t
+
+
+def run_ko_ctx(c):
+    import pydicom
+    from highdicom import ko
+    from pydicom.sr.codedict import codes
+
+    def f():
+        objs = []
+        for u, cl, img in c['refs']:
+            d = evidence_ds([u, cl, 1, 1])
+            if not img:
+                del d.Rows
+                del d.Columns
+            objs.append(d)
+        content = ko.KeyObjectSelection(
+            document_title=make_entry('113000', 'DCM', 'Of Interest', c.get('title_x')), referenced_objects=objs,
+            observer_person_context=None if c['person'] is None else build_octx(c['person']),
+            observer_device_context=None if c['device'] is None else build_octx(c['device']),
+            description=None if c['descr'] is None else f"d{c['descr']}")
+        given = copy.deepcopy(content)
+        doc = ko.KeyObjectSelectionDocument(
+            evidence=[evidence_ds(r) for r in c['evidence']], content=content,
+            series_instance_uid=PFX + '7.1', series_number=3, sop_instance_uid=PFX + '7.2',
+            instance_number=1, manufacturer='verif', transfer_syntax_uid=TS[c['ts']],
+            institution_name=None if c['inst'] is None else f"Inst{c['inst']}",
+            institutional_department_name=None if c['dept'] is None else f"Dept{c['dept']}",
+            requested_procedures=None if c['requests'] is None else [requested_procedure(v) for v in c['requests']])
+        return doc, given, content
+    r = catch(f)
+    if isinstance(r, Err):
+        return r
+    doc, given, content = r
+    if not same(given[0], content[0]):
+        return f'the constructor changed the content it was given: {ds_diff(given[0], content[0])}'
+    if not same(doc.content[0], given[0]):
+        return f'document content differs from the content given: {ds_diff(doc.content[0], given[0])}'
+    if c['parse'] is not None:
+        if c['parse'] == 'dcmread':
+            bio = io.BytesIO()
+            doc.save_as(bio)
+            bio.seek(0)
+            src = pydicom.dcmread(bio)
+        else:
+            src = copy.deepcopy(doc)
+        back = catch(lambda: ko.KeyObjectSelectionDocument.from_dataset(src))
+        if isinstance(back, Err):
+            return back
+        if not same(back.content[0], given[0]):
+            return f'parsed content differs from the content given: {ds_diff(back.content[0], given[0])}'
+        doc = back
+    tree = tree_ctx(doc.content[0])
+    if tree_ctx(doc) != tree:
+        return 'top-level content attributes of the document differ from .content'
+    ctxs = []
+    for flt in c['filters']:
+        code = None if flt is None else [codes.DCM.Person, codes.DCM.Device, codes.DCM.Recording][flt]
+
+        def g():
+            return [[OBSERVER_CODES.get(str(x.observer_type.value), 9),
+                     [_tag(entry_value(k.ConceptNameCodeSequence[0])) for k in list(x)[1:]]]
+                    for x in doc.content.get_observer_contexts(code)]
+        ctxs.append(catch(g))
+    ex = observe_extras(doc)
+    return [tree, refs_of(doc.get('CurrentRequestedProcedureEvidenceSequence')),
+            refs_of(doc.get('PertinentOtherEvidenceSequence')), ex, ctxs]
+
+
+def run_identity(c):
+    """kinds doc_study / ko_study: the identity of the document (study, patient, study id, accession number), in
+    memory and - parse - after the file round trip"""
+    import pydicom
+    from highdicom import ko, sr
+
+    def f():
+        if c['kind'] == 'doc_study':
+            return make_doc(c)[0]
+        objs = []
+        for u, cl, img in c['refs']:
+            d = evidence_ds([u, cl, 1, 1])
+            if not img:
+                del d.Rows
+                del d.Columns
+            objs.append(d)
+        content = ko.KeyObjectSelection(
+            document_title=make_entry('113000', 'DCM', 'Of Interest', c.get('title_x')), referenced_objects=objs,
+            description=None if c['descr'] is None else f"d{c['descr']}")
+        return ko.KeyObjectSelectionDocument(
+            evidence=[evidence_ds(r, patient=True) for r in c['evidence']], content=content,
+            series_instance_uid=PFX + '7.1', series_number=3, sop_instance_uid=PFX + '7.2',
+            instance_number=1, manufacturer='verif', transfer_syntax_uid=TS[c['ts']])
+    doc = catch(f)
+    if isinstance(doc, Err):
+        return doc
+    out = [observe_identity(doc)]
+    if c['parse']:
+        bio = io.BytesIO()
+        doc.save_as(bio)
+        bio.seek(0)
+        back = sr.srread(bio) if c['kind'] == 'doc_study' else ko.KeyObjectSelectionDocument.from_dataset(pydicom.dcmread(bio))
+        out.append(observe_identity(back))
+    return out
+
+
 def run_impl(c):
     import warnings
     warnings.filterwarnings('ignore')
@@ -1787,6 +2070,20 @@ def run_impl(c):
                 value_type=None if q['vt'] is None else VTS[q['vt']],
                 relationship_type=None if q['rel'] is None else RELS[q['rel']],
                 recursive=c['recursive'])
+            return [tree_of(g) for g in got]
+        return catch(f)
+    if k == 'find_name':
+        ds = build_raw_named(c['tree'], root=True, has_cs=c['has_cs'])
+        q, qn = c['q'], c['qname']
+
+        def f():
+            name = None
+            if qn is not None:
+                name = make_entry(str(qn['code']), SCHEME if qn['scheme'] else '99OTHER', f"m{qn['code']}",
+                                  ([qn['form']] if qn['form'] else []) + ([10 + qn['version']] if qn['version'] else []))
+            got = sru.find_content_items(
+                ds, name=name, value_type=None if q['vt'] is None else VTS[q['vt']],
+                relationship_type=None if q['rel'] is None else RELS[q['rel']], recursive=c['recursive'])
             return [tree_of(g) for g in got]
         return catch(f)
     if k in ('collect', 'collect_err'):
@@ -1878,6 +2175,10 @@ def run_impl(c):
             return 'reference does not name the segmentation instance'
         px = seg.pixel_array.reshape(len(table), -1).any(axis=1).tolist()
         return [table, pick, o, px]
+    if k == 'ko_ctx':
+        return run_ko_ctx(c)
+    if k in ('doc_study', 'ko_study'):
+        return run_identity(c)
     if k in ('ko', 'ko_err', 'ko_srread', 'ko_parse'):
         from highdicom import ko
 
@@ -2041,6 +2342,12 @@ def coq_term(c):
         qq = (f"(Query {coq_optz(q['name'])} {'None' if q['vt'] is None else '(Some ' + COQ_VT[q['vt']] + ')'} "
               f"{coq_optz(q['rel'])})")
         return f"(run_find {coq_b(c['has_cs'])} {qq} {coq_b(c['recursive'])} {coq_item(c['tree'])})"
+    if k == 'find_name':
+        q, qn = c['q'], c['qname']
+        qq = f"(Query None {'None' if q['vt'] is None else '(Some ' + COQ_VT[q['vt']] + ')'} {coq_optz(q['rel'])})"
+        nm = ('None' if qn is None else
+              f"(Some (QName {zlit(qn['code'])} {zlit(qn['form'])} {zlit(qn['version'])} {coq_b(qn['scheme'])}))")
+        return f"(run_find_name {coq_b(c['has_cs'])} {nm} {qq} {coq_b(c['recursive'])} {coq_item(c['tree'])})"
     if k in ('collect', 'collect_err'):
         return f"(run_collect {coq_b(c['has_cs'])} {coq_evd(c['evidence'])} {coq_item(c['tree'])})"
     if k in ('doc', 'doc_err'):
@@ -2073,6 +2380,8 @@ def coq_term(c):
         return f"(VL [{common.to_val(table)}; {common.to_val(pick)}; {run}; {common.to_val(px)}])"
     if k == 'tid1500':
         return None
+    if k == 'doc_study':
+        return f"(run_doc_study {COQ_CLASSES[c['cls']]} {coq_args(c)} {coq_b(c['parse'])})"
     refs = '[' + '; '.join(f'({zlit(u)}, {zlit(cl)}, {coq_b(img)})' for u, cl, img in c['refs']) + ']'
     tx = coq_zl(c.get('title_x') or [])
     if k in ('ko', 'ko_err'):
@@ -2081,6 +2390,18 @@ def coq_term(c):
                 f"{refs} {qs})")
     if k == 'ko_srread':
         return f"(run_ko_srread {coq_evd(c['evidence'])} 113000 {tx} {refs})"
+    if k == 'ko_study':
+        return (f"(run_ko_study {coq_evd(c['evidence'])} {coq_b(c['ts'] != 'jpeg')} 113000 {tx} {coq_optz(c['descr'])} "
+                f"{refs} {coq_b(c['parse'])})")
+    if k == 'ko_ctx':
+        def octx(o):
+            if o is None:
+                return 'None'
+            return f"(Some (OCtx {zlit(o[0])} [{'; '.join(coq_item(t) for t in ctx_tree(o)[1:])}]))"
+        flts = '[' + '; '.join(coq_optz(f) for f in c['filters']) + ']'
+        x = f"(Extras {coq_optz(c['inst'])} {coq_optz(c['dept'])} None {coq_optzl(c['requests'])})"
+        return (f"(run_ko_ctx {coq_evd(c['evidence'])} {coq_b(c['ts'] != 'jpeg')} 113000 {tx} {octx(c['person'])} "
+                f"{octx(c['device'])} {coq_optz(c['descr'])} {refs} {x} {coq_b(c['parse'] is not None)} {flts})")
     if k == 'ko_parse':
         qs = '[' + '; '.join(zlit(u) for u in c['queries']) + ']'
         vf = 'None' if c['vf'] is None else f"(Some {COQ_VT[c['vf']]})"
@@ -2518,12 +2839,69 @@ def oracle_ko_parse(c, out):
     return None
 
 
+def oracle_ko_ctx(c, out):
+    if isinstance(out, str):
+        return out
+    ref = {r[0] for r in c['refs']}
+    first = _first(c['evidence'])
+    wrong = (c['person'] is not None and c['person'][0] != 0) or (c['device'] is not None and c['device'][0] != 1)
+    bad = (wrong or not c['refs'] or not c['evidence'] or c['ts'] == 'jpeg' or not ref <= set(first)
+           or len({first[u][0] for u in ref}) > 1)
+    if bad:
+        return None if isinstance(out, Err) else 'invalid key object selection / document accepted'
+    if isinstance(out, Err):
+        return f'valid key object document with observer contexts refused: {out}'
+    tree, cur, oth, ex, ctxs = out
+    want_kids = (ctx_tree(c['person']) + ctx_tree(c['device']) +
+                 ([[1, 113012, 1, None, [], []]] if c['descr'] is not None else []) +
+                 [[IMAGE if img else COMPOSITE, 260753009, 1, [u, cl], [], []] for u, cl, img in c['refs']])
+    if tree != [0, 113000, 0, None, want_kids, ko_root_opts(c)]:
+        return f'key object content {tree}, expected title entry {c.get("title_x") or []} and items {want_kids}'
+    m = check_partition(c['evidence'], ref, cur, oth, record=False, what='KO (observer contexts) ')
+    if m:
+        return m
+    want_ex = [c['inst'], c['dept'] if c['inst'] is not None else None, None, c['requests']]
+    if ex != want_ex:
+        return f'institution / department / performed codes / requested procedures recorded as {ex}, given {want_ex}'
+    for flt, got in zip(c['filters'], ctxs):
+        want = [[o[0], list(o[1])] for o in (c['person'], c['device']) if o is not None and flt in (None, o[0])]
+        if got != want:
+            return f'get_observer_contexts({flt}) = {got}, contexts given: {want}'
+    return None
+
+
+def oracle_identity(c, out):
+    if isinstance(out, str):
+        return out
+    if c['kind'] == 'doc_study':
+        why = doc_expect_error(c)
+    else:
+        ref = {r[0] for r in c['refs']}
+        first = _first(c['evidence'])
+        why = ('invalid key object document' if (not c['refs'] or not c['evidence'] or c['ts'] == 'jpeg'
+               or not ref <= set(first) or len({first[u][0] for u in ref}) > 1) else None)
+    if why:
+        return None if isinstance(out, Err) else f'invalid document accepted: {why}'
+    if isinstance(out, Err):
+        return f'valid document refused: {out}'
+    st = c['evidence'][0][2]
+    for where, got in zip(('document', 'parsed document'), out):
+        if got != [st] * 4:
+            return (f'{where}: study / patient id / study id / accession number {got}, '
+                    f'first supplied record is of study and patient {st}')
+    return None
+
+
 def oracle(c, out):
     k = doc_kind(c)
     if k == 'report_doc':
         return oracle_report_doc(c, out)
     if k == 'ko_parse':
         return oracle_ko_parse(c, out)
+    if k == 'ko_ctx':
+        return oracle_ko_ctx(c, out)
+    if k in ('doc_study', 'ko_study'):
+        return oracle_identity(c, out)
     if k == 'segref':
         return oracle_segref(c, out)
     if k == 'segframe':
@@ -2532,6 +2910,27 @@ def oracle(c, out):
         return oracle_seg_real(c, out)
     if k == 'tid1500':
         return oracle_tid1500(c, out)
+    if k == 'find_name':
+        if not c['has_cs']:
+            return None if out == Err('AttributeError') else f'dataset without content sequence gave {out}'
+        if isinstance(out, Err):
+            return f'search refused: {out}'
+        q, qn = c['q'], c['qname']
+
+        def named(x):
+            # independent statement of the rule: the coded entries are equal as (value string, scheme, version)
+            if qn is None:
+                return True
+            f = opt_get(x, K_NAME) or []
+            mine = (({2: LONG_PFX, 3: URN_PFX}.get(2 if 2 in f else (3 if 3 in f else 0), '')) + str(x[1]), SCHEME,
+                    next((f'v{v - 10}' for v in f if 11 <= v <= 19), None))
+            asked = ({2: LONG_PFX, 3: URN_PFX}.get(qn['form'], '') + str(qn['code']),
+                     SCHEME if qn['scheme'] else '99OTHER', f"v{qn['version']}" if qn['version'] else None)
+            return mine == asked
+        cand = list(walk(c['tree'])) if c['recursive'] else [(x, 1) for x in c['tree'][4]]
+        want = [canon(x) for x, _ in cand
+                if named(x) and (q['vt'] is None or x[0] == q['vt']) and (q['rel'] is None or x[2] == q['rel'])]
+        return None if out == want else f'found {len(out)} items named as asked, the tree holds {len(want)} in order'
     if k == 'find':
         if not c['has_cs']:
             return None if out == Err('AttributeError') else f'dataset without content sequence gave {out}'
@@ -2616,9 +3015,9 @@ def nontrivial(c, out):
         return c['seg']['nframes'] > 1
     if k == 'seg_real':
         return len(out[0]) > 1
-    if k in ('tid1500', 'report_doc', 'ko_parse'):
+    if k in ('tid1500', 'report_doc', 'ko_parse', 'ko_ctx', 'ko_study'):
         return True
-    if k == 'find':
+    if k in ('find', 'find_name'):
         return len(out) > 0 and any(d > 1 for _, d in walk(c['tree']))
     if k in ('ko', 'ko_srread'):
         return True
